@@ -285,7 +285,7 @@ Definition end_top (lc : bool) (idx : N) (s : sc) (c : byte) (nxt : option byte)
     (* fix a0479cf: in length mode a slash that does not begin // or /* is the first byte after the rule: found(EndTop); return errEOS *)
     match nxt with
     | Some x => if (lc && negb (ch x 47) && negb (ch x 42))%bool then SEos else switch_to_annotation idx s
-    | None => switch_to_annotation idx s
+    | None => if lc then SEos else switch_to_annotation idx s      (* sixth-round fix: the slash is the last byte of the text *)
     end
   else if negb (is_blank c) then
     if lc then
